@@ -309,7 +309,11 @@ func specParse(n *Node, cfg SpecCfg, in any, dst reflect.Value, path string, loc
 				out.schedulePosts(n, dst, true)
 				return
 			}
-		} else if n.Coercer == "custom" {
+		} else if n.Coercer == "custom" || n.Coercer == "global" {
+			if s, ok := in.(string); ok && s == "COERCE-ERR" {
+				out.add(path, "coerce", "slice")
+				return
+			}
 			c := CustomCoerce(KSlice, in)
 			rv := reflect.ValueOf(c)
 			for i := 0; i < rv.Len(); i++ {
@@ -338,6 +342,13 @@ func specParse(n *Node, cfg SpecCfg, in any, dst reflect.Value, path string, loc
 	case n.Kind == KStruct:
 		get, ok := structGetter(in)
 		if !ok {
+			switch reflect.ValueOf(in).Kind() {
+			case reflect.Struct, reflect.Pointer, reflect.Map:
+				// Go structs (time.Time is one), pointers and other map types are
+				// input forms whose treatment this specification does not model
+				out.unknown("struct schema given %T", in)
+				return
+			}
 			out.add(path, "coerce", "struct")
 			return
 		}
@@ -567,6 +578,13 @@ func Coerce(n *Node, in any) (any, CoerceVerdict) {
 			return nil, CoerceFail
 		}
 		return CustomCoerce(n.Kind, in), CoerceOK
+	}
+	if n.Coercer == "global" {
+		// the global override computes the base kind's function; width adapters convert
+		if s, ok := in.(string); ok && s == "COERCE-ERR" {
+			return nil, CoerceFail
+		}
+		return CustomCoerce(BaseKind(n.Kind), in), CoerceOK
 	}
 	switch n.Kind {
 	case KString:
